@@ -131,7 +131,9 @@ func c05Wkb(c *ctx, data []byte, enum int) {
 				b2, e2 := ewkb.Marshal(g, srid)
 				if e2 != nil {
 					stable = 0
-				} else if len(b2) > 0 {
+				} else if len(b2) == 0 {
+					stable = 0 // a decoded value that encodes to nothing cannot be decoded again
+				} else {
 					g2, s2, e3 := ewkb.Unmarshal(b2)
 					if e3 != nil || s2 != srid || exactBits(g2) != exactBits(canonForStable(g)) {
 						stable = 0
@@ -435,6 +437,29 @@ func init() {
 			for b := 0; b < 256; b++ {
 				if (a*256+b)%stride == 0 {
 					c05Raw(c, "mvt(bytes)", []byte{byte(a), byte(b)}, c05MvtDecs)
+				}
+			}
+		}
+		// features whose tag indices run up to and past the ends of the key / value tables (incl. an odd tag count)
+		for nk := 0; nk <= 2; nk++ {
+			for nv := 0; nv <= 2; nv++ {
+				for _, tags := range [][]uint32{{0, 0}, {1, 0}, {0, 1}, {2, 2}, {3, 0}, {0, 3}, {2147483647, 0}, {0}, {1, 1, 2}, {}} {
+					name, ver, ext := "l", uint32(2), uint32(4096)
+					gt := vectortile.Tile_POINT
+					layer := &vectortile.Tile_Layer{Name: &name, Version: &ver, Extent: &ext,
+						Features: []*vectortile.Tile_Feature{{Type: &gt, Geometry: []uint32{9, 2, 2}, Tags: tags}}}
+					for i := 0; i < nk; i++ {
+						layer.Keys = append(layer.Keys, fmt.Sprintf("k%d", i))
+					}
+					for i := 0; i < nv; i++ {
+						sv := fmt.Sprintf("v%d", i)
+						layer.Values = append(layer.Values, &vectortile.Tile_Value{StringValue: &sv})
+					}
+					data, err := (&vectortile.Tile{Layers: []*vectortile.Tile_Layer{layer}}).Marshal()
+					if err != nil {
+						fatal(err)
+					}
+					c05Raw(c, "mvt(tags)", data, c05MvtDecs)
 				}
 			}
 		}
